@@ -270,8 +270,8 @@ def run(run: Run):
     run.guard('C08.R6', check_per_instance_state, run, 'C08.R6', get_runtime(get_source()))
     from . import c18
     run.rule('C08.R7', 'reported sizes are those of the sheet itself: per-sheet accumulators are reset per sheet (shared with C18.R2)')
-    borrow(run, 'C08.R7', c18.r2, src)
-    run.floor('C08.R7', 5)
+    borrow(run, 'C08.R7', c18.r2_any, src)
+    run.floor('C08.R7', 2)
     run.floor('C08.R6', 6)
     run.floor('C08.R1', 100)
     run.floor('C08.R2', 4)
